@@ -351,7 +351,7 @@ class ArrayTheory:
             index(new)
         return facts
 
-    def refine(self, ob, discharge, rounds=12, pool_limit=160, budget_s=40.0):
+    def refine(self, ob, discharge, rounds=30, pool_limit=160, budget_s=float(__import__('os').environ.get('PV_REFINE_BUDGET_S', '25')), per_round=80):
         """Model-based instantiation for an obligation the solver answered `sat` on a finite set of instances: evaluate every
         quantified fact at every index term of the formula under the model; add the instances the model violates and ask again.
         `unsat` is then a proof (only consequences of assumed facts were added); a model that satisfies every instance over the
@@ -363,9 +363,11 @@ class ArrayTheory:
         t0 = _t.time()
         added_total = 0
         done = set()
+        built = {}                   # (qfact, term) -> (instance, side facts, new qfacts): built once, re-evaluated per model
+        size_cache = {}
         for rnd in range(rounds):
             s = z3.Solver()
-            s.set('timeout', 20000)
+            s.set('timeout', 10000)
             for p_ in ob.path:
                 s.add(p_)
             s.add(z3.Not(ob.goal))
@@ -391,7 +393,7 @@ class ArrayTheory:
                 if key not in vals:
                     vals.add(key)
                     reps.append(t)
-            new = []
+            new, cands = [], []
             work = st.fork()
             qf = list(work.qfacts)
             # occurrences of every uninterpreted function in the current formula (for trigger-based candidate terms)
@@ -438,28 +440,48 @@ class ArrayTheory:
                         continue
                     if _t.time() - t0 > budget_s:
                         break
-                    s2 = work.fork()
-                    try:
-                        inst = q.fn(self, s2, t)
-                    except E.Unsupported:
-                        continue
-                    if q.marker is not None:
-                        inst = z3.Implies(q.marker, inst)
-                    side = s2.path[len(work.path):]
+                    if key in built:
+                        inst, side, newq = built[key]
+                        if inst is None:
+                            continue
+                    else:
+                        s2 = work.fork()
+                        try:
+                            inst = q.fn(self, s2, t)
+                        except E.Unsupported:
+                            built[key] = (None, None, None)
+                            continue
+                        if q.marker is not None:
+                            inst = z3.Implies(q.marker, inst)
+                        side = s2.path[len(work.path):]
+                        newq = s2.qfacts[len(work.qfacts):]
+                        built[key] = (inst, side, newq)
                     try:
                         bad = [f for f in [inst] + list(side) if z3.is_false(m.eval(f, model_completion=True))]
                     except z3.Z3Exception:
                         bad = []
                     if bad:
-                        done.add(key)
-                        new.extend(side)
-                        new.append(inst)
-                        for q2 in s2.qfacts[len(work.qfacts):]:
-                            qf.append(q2)
-                            work.qfacts.append(q2)
-            if not new:
+                        cands.append((key, inst, side, newq))
+            if not cands:
                 ob.backend = (ob.backend or 'z3') + ' (counter-model satisfies every quantified fact over %d index values)' % len(reps)
                 return
+            if len(cands) > per_round:
+                # keep the formula small: a model of unconstrained functions violates many irrelevant instances; the smallest
+                # ones first (they mention the obligation's own index terms), the others are found again if they still matter
+                def size(c_):
+                    i_ = c_[1].get_id()
+                    if i_ not in size_cache:
+                        size_cache[i_] = len(c_[1].sexpr())
+                    return size_cache[i_]
+                cands.sort(key=size)
+                cands = cands[:per_round]
+            for key, inst, side, newq in cands:
+                done.add(key)
+                new.extend(side)
+                new.append(inst)
+                for q2 in newq:
+                    qf.append(q2)
+                    work.qfacts.append(q2)
             if _t.time() - t0 > budget_s:
                 ob.verdict, ob.reason = 'unknown', 'model-based instantiation budget exhausted'
                 return
